@@ -6,10 +6,13 @@ import (
 	"fmt"
 	"os"
 	"runtime"
+	"strings"
 	"sync"
 	"sync/atomic"
 
+	"go.pennock.tech/tabular"
 	"go.pennock.tech/tabular/auto"
+	"go.pennock.tech/tabular/properties/align"
 	"go.pennock.tech/tabular/texttable"
 	"go.pennock.tech/tabular/texttable/decoration"
 
@@ -31,6 +34,38 @@ type Worker struct {
 	Faults []int `json:"faults,omitempty"`
 	// Deco, if set, is a custom decoration this goroutine builds (Populate) and renders its table with, last
 	Deco *gen.DecoSpec `json:"deco,omitempty"`
+	// List: the goroutine first takes the style listing and the registered decoration names (part of its results)
+	List bool `json:"list,omitempty"`
+}
+
+// protoTag is the stateless callback every copy of the prototype cell carries.
+type protoTag struct{ n int }
+
+type protoKey struct{ n int }
+
+func (p protoTag) UpdateProperties(po tabular.PropertyOwner) error {
+	return po.SetProperty(protoKey{p.n}, "tagged")
+}
+
+// aligner belongs to one goroutine's table: when its cell is rendered it sets the alignment of a column of that table.
+type aligner struct {
+	t   tabular.Table
+	how align.Alignment
+}
+
+func (a aligner) UpdateProperties(tabular.PropertyOwner) error {
+	return a.t.Column(1).SetProperty(align.PropertyType, a.how)
+}
+
+// ensureRegistered makes the registry hold at least n application decorations (process-wide, never shrinks).
+func ensureRegistered(n int) {
+	d := decoration.Named("utf8-light")
+	for k := 0; k < n; k++ {
+		name := fmt.Sprintf("c16-extra-%02d", k)
+		if decoration.Named(name) == decoration.EmptyDecoration {
+			decoration.RegisterDecorationName(name, d)
+		}
+	}
 }
 
 type failOnce struct {
@@ -51,6 +86,13 @@ type Case struct {
 	Workers  []Worker `json:"workers"`
 	Registry bool     `json:"registry,omitempty"` // an extra goroutine reads the decoration registry and the style listing meanwhile
 	Reps     int      `json:"reps,omitempty"`
+	// Proto > 0: a prototype cell carrying that many render callbacks is made first; every goroutine adds a by-value
+	// copy of it to its own table and registers one more callback on its own copy
+	Proto int `json:"proto,omitempty"`
+	// Barrier: the goroutines wait for each other between building and rendering
+	Barrier bool `json:"barrier,omitempty"`
+	// PreReg: the application has registered that many decorations of its own before any goroutine starts
+	PreReg int `json:"prereg,omitempty"`
 }
 
 // yieldWriter hands the processor over at every Write so that renders interleave.
@@ -70,8 +112,26 @@ type result struct {
 	err string
 }
 
-func run(wk Worker, yield bool) []result {
+func run(wk Worker, idx int, proto *tabular.Cell, mid func(), yield bool) []result {
+	var listing result
+	if wk.List {
+		listing.out = strings.Join(auto.ListStyles(), ",") + "|" + strings.Join(decoration.RegisteredDecorationNames(), ",")
+	}
 	t, _ := gen.Build(wk.Script)
+	if proto != nil {
+		r := tabular.NewRow()
+		r.Add(*proto)
+		r.Add(tabular.NewCell(fmt.Sprintf("v%d", idx)))
+		t.AddRow(r)
+		cells := r.Cells()
+		how := []align.Alignment{align.Right, align.Center, align.Left}[idx%3]
+		if err := t.RegisterPropertyCallback(&cells[0], tabular.CB_AT_RENDER, tabular.CB_ON_ITSELF, aligner{t, how}); err != nil {
+			panic(err)
+		}
+	}
+	if mid != nil {
+		mid()
+	}
 	long := map[string]auto.RenderTable{}
 	res := make([]result, len(wk.Renders))
 	for i, st := range wk.Renders {
@@ -117,6 +177,9 @@ func run(wk Worker, yield bool) []result {
 		}
 		res = append(res, r)
 	}
+	if wk.List {
+		res = append(res, listing)
+	}
 	return res
 }
 
@@ -126,9 +189,20 @@ func CheckCase(c Case) *ev.Violation {
 		ev.WriteCase(p+".running", ID, c, "the process died while this case was running (data race reported by the Go race detector, or a fatal runtime error)")
 		defer os.Remove(p + ".running")
 	}
+	ensureRegistered(c.PreReg)
+	var proto *tabular.Cell
+	if c.Proto > 0 {
+		pc := tabular.NewCell("id")
+		for k := 0; k < c.Proto; k++ {
+			if err := tabular.New().RegisterPropertyCallback(&pc, tabular.CB_AT_RENDER, tabular.CB_ON_ITSELF, protoTag{k}); err != nil {
+				return ev.V("registering a callback on a stand-alone cell failed: %v", err)
+			}
+		}
+		proto = &pc
+	}
 	want := make([][]result, len(c.Workers))
 	for i, wk := range c.Workers {
-		want[i] = run(wk, false)
+		want[i] = run(wk, i, proto, nil, false)
 	}
 	reps := c.Reps
 	if reps < 1 {
@@ -140,12 +214,18 @@ func CheckCase(c Case) *ev.Violation {
 		var stop int32
 		var start sync.WaitGroup
 		start.Add(1)
+		var built sync.WaitGroup
+		built.Add(len(c.Workers))
+		var mid func()
+		if c.Barrier {
+			mid = func() { built.Done(); built.Wait() }
+		}
 		for i := range c.Workers {
 			wg.Add(1)
 			go func(i int) {
 				defer wg.Done()
 				start.Wait()
-				got[i] = run(c.Workers[i], true)
+				got[i] = run(c.Workers[i], i, proto, mid, true)
 			}(i)
 		}
 		var rg sync.WaitGroup
@@ -169,7 +249,7 @@ func CheckCase(c Case) *ev.Violation {
 		for i := range c.Workers {
 			for j := range want[i] {
 				if got[i][j] != want[i][j] {
-					style := "custom decoration"
+					style := "custom decoration, or the listings"
 					if j < len(c.Workers[i].Renders) {
 						style = c.Workers[i].Renders[j]
 					}
@@ -204,6 +284,21 @@ func Classify(c Case) (bool, interface{}, []string) {
 	cl = append(cl, fmt.Sprintf("goroutines-%d", len(c.Workers)))
 	if c.Registry {
 		cl = append(cl, "registry-reader")
+	}
+	if c.Proto > 0 {
+		cl = append(cl, "prototype-cell-with-callbacks-copied-into-every-table")
+	}
+	if c.Barrier {
+		cl = append(cl, "barrier-between-build-and-render")
+	}
+	if c.PreReg > 0 {
+		cl = append(cl, "application-decorations-registered-first")
+	}
+	for _, w := range c.Workers {
+		if w.List {
+			cl = append(cl, "goroutines-take-the-listings")
+			break
+		}
 	}
 	return nt, nil, cl
 }
